@@ -10,11 +10,10 @@
     harness passes `np.round(x, 6) · 10⁶` as exact integers and monitors that
     rounding.  Consequently the model has ONE representation per rounded
     coordinate: int-vs-float dtype and `-0.0` vs `0.0` do not exist here.
-  * `Traps.__init__` tests uniqueness on the *unrounded* coordinates, which
-    the model cannot see: the harness computes that fact independently and
-    passes it as `rawDistinct`.  The rounded coordinates may then still
-    collide; the model goes on exactly as the code does (dict overwrite in
-    `_coords_to_traps`, stable sort).
+  * `Traps.__init__` tests uniqueness on the *rounded* coordinates (since the
+    repair of F13c), i.e. on exactly the integers the model sees.  The functions
+    below stay total on lists with repeated coordinates and then behave as the
+    code would (dict overwrite in `_coords_to_traps`, stable sort).
   * Weights are exact rationals (the float64 value converted exactly).
   * Core Lean only (this file is linked into the `pm_layout` executable).
 -/
@@ -95,15 +94,14 @@ structure Layout where
   coords : List Coord
 deriving DecidableEq, Repr
 
-/-- `Traps.__init__`.  `rawDistinct` = the unrounded coordinates are pairwise
-different (`len(np.unique(coords_arr, axis=0)) == shape[0]`). -/
-def mkLayout (coords : List Coord) (rawDistinct : Bool) : Res Layout :=
+/-- `Traps.__init__`.  Uniqueness: `len(np.unique(np.round(coords_arr, 6), axis=0)) == shape[0]`. -/
+def mkLayout (coords : List Coord) : Res Layout :=
   match coords with
   | [] => .err .shape
   | c :: _ =>
     if !coords.all (fun d => d.length == c.length) then .err .shape
     else if c.length != 2 && c.length != 3 then .err .dim
-    else if !rawDistinct then .err .notUnique
+    else if ¬ coords.Nodup then .err .notUnique
     else .ok { dim := c.length, coords := coords }
 
 /-- `sorted_coords` / `coords`: trap `i` sits at `L.sorted[i]`. -/
@@ -236,8 +234,8 @@ structure WeightMap where
 deriving DecidableEq, Repr
 
 /-- `WeightMap.__init__` / `DetuningMap`. -/
-def mkWeightMap (coords : List Coord) (weights : List Rat) (rawDistinct : Bool) : Res WeightMap :=
-  match mkLayout coords rawDistinct with
+def mkWeightMap (coords : List Coord) (weights : List Rat) : Res WeightMap :=
+  match mkLayout coords with
   | .err e => .err e
   | .ok L =>
     if coords.length ≠ weights.length then .err .weightCount
@@ -257,12 +255,11 @@ def WeightMap.sortedWeights (m : WeightMap) : List Rat := m.sortedTraps.map (·.
 def WeightMap.key (m : WeightMap) : Nat × List Coord × List Rat :=
   (m.dim, m.sortedCoords, m.sortedWeights)
 
-/-- `np.isclose(t, p, atol=1e-6)` on one component, in micro-units:
-`|t − p| ≤ atol + rtol·|p|` with numpy's default `rtol = 1e-5`, i.e.
-`10⁵·|t − p| ≤ 10⁵ + |p|`. -/
-def closeTo (t p : Int) : Bool := decide (100000 * (t - p).natAbs ≤ 100000 + p.natAbs)
+/-- `np.isclose(t, p, rtol=0.0, atol=1e-6)` on one component, in micro-units:
+`|t − p| ≤ 1` (one micro-unit; since the repair of F19 there is no relative term). -/
+def closeTo (t p : Int) : Bool := decide ((t - p).natAbs ≤ 1)
 
-/-- `np.all(np.isclose(trap, pos, atol=1e-6))` for one trap. -/
+/-- `np.all(np.isclose(trap, pos, rtol=0.0, atol=1e-6))` for one trap. -/
 def closeCoord (t p : Coord) : Bool :=
   t.length == p.length && (List.zipWith closeTo t p).all id
 
@@ -277,20 +274,20 @@ def WeightMap.qubitWeights (m : WeightMap) (qubits : List (QId × Coord)) : List
 
 /-- `RegisterLayout.define_detuning_map(detuning_weights)` as it is specified
 (the coordinates of the chosen traps, in the order of the dict, with their weights).
-The coordinates handed to `DetuningMap` are the rounded ones, so its uniqueness test
-sees exactly the model's coordinates. -/
+(The code builds the coordinate list with `itemgetter`, which breaks for zero or one
+trap — F13d/F13e, still open; the model follows the specification.) -/
 def layoutDetuningMap (L : Layout) (ws : List (Nat × Rat)) : Res WeightMap :=
   if ¬ ws.all (fun iw => decide (iw.1 < L.nTraps)) then .err .badTrapId
   else
     let cs := ws.map fun iw => L.trapCoord iw.1
-    mkWeightMap cs (ws.map (·.2)) (decide cs.Nodup)
+    mkWeightMap cs (ws.map (·.2))
 
 /-- `BaseRegister.define_detuning_map(detuning_weights)`. -/
 def regDetuningMap (r : Reg) (ws : List (QId × Rat)) : Res WeightMap :=
   if ¬ ws.all (fun qw => (r.qubits.map (·.1)).contains qw.1) then .err .undeclared
   else
     let cs := ws.map fun qw => (r.qubits.lookup qw.1).getD []
-    mkWeightMap cs (ws.map (·.2)) (decide cs.Nodup)
+    mkWeightMap cs (ws.map (·.2))
 
 end Layout
 end Pulser
